@@ -152,7 +152,7 @@ func init() {
 		Gen: func(tier string, seed int64) []fw.Case {
 			return genRetry(retrySpec{
 				Workloads:   []string{"in1", "in2", "in3", "in4", "in5", "in6", "in7", "in8"},
-				Configs:     append(withClients(cfgs([]string{"A"}, []string{"keep", "lose"}, []bool{false}), 1, "retry", "retry-retryfirst"), retryParams{Cfg: scen.BrokerCfg{Method: "A", Session: "keep", Redeliver: true}, Chunk: 1}),
+				Configs:     append(withClients(cfgs([]string{"A"}, []string{"keep", "lose"}, []bool{false}), 1, "retry", "retry-retryfirst"), retryParams{Cfg: scen.BrokerCfg{Method: "A", Session: "keep", Redeliver: true}, Chunk: 1}, retryParams{Cfg: scen.BrokerCfg{Method: "A", Session: "lose"}, Preset: true}),
 				Singles:     true,
 				PairsSample: scale(tier, 60, 4000),
 				Random:      scale(tier, 100, 12000),
